@@ -1,8 +1,9 @@
 """
 C11 - JSON export and load round-trip every JSON-representable tree.
 
-Lean: lean/N0Verif/Model/Json.lean, Proofs/Json.lean, Props/C11.lean
-B streams : json.dump (model text vs to_json, blanks outside strings ignored), json.dump/exact (statistic only),
+Lean: lean/N0Verif/Model/Json.lean, Proofs/Json.lean, Proofs/JsonPairs.lean, Props/C11.lean
+B streams : json.ctor (constructor model vs n0dict(text)/n0list(text): value, class tags, exception class),
+            json.dump (model text vs to_json, blanks outside strings ignored), json.dump/exact (statistic only),
             json.loads (reader model vs json.loads on valid, mutated and hand-made invalid texts),
             json.esc (json.dumps string escaping), json.expect (the evaluator's reference `prune` vs the Lean `dropEmptyIf`)
 C         : roundtrip  json.loads(x.to_json(**o)) == dropEmptyIf(o, x)   (typed, dict order ignored)
@@ -17,19 +18,32 @@ from harness.core import enc_str, dec_str
 
 MANIFEST = dict(
     category="proof",
-    technique="Lean 4 theorems over a hand-written model of n0pretty-as-called-by-to_json and of json.loads + differential correspondence with the implementation",
-    text="Lean theorems (Props/C11.lean): C11_decode_ren - the reader model (json.loads) decodes every JSON text of a "
+    technique="Lean 4 theorems over a hand-written model of n0pretty-as-called-by-to_json, of json.loads and of the n0dict(text)/n0list(text) constructors + differential correspondence with the implementation",
+    text="Lean theorems (Props/C11.lean, all unbounded): C11_decode_ren - the reader model (json.loads) decodes every JSON text of a "
          "value, whatever blanks/line breaks stand between the tokens, back to that value (all strings: quote, backslash, "
-         "control, non-ASCII; ints; float lexemes; true/false/null; unbounded depth and width); "
-         "C11_roundtrip_partial - for every tree with unique keys, valid float lexemes and depth <= 111 and every option "
-         "record with the pair layout off (compress, indent 0, or pairs_in_one_line=False; every indent, both values of "
-         "skip_empty_arrays) jsonDecode(toJson o t) = dropEmptyIf o t exactly. The full statement C11_roundtrip_stmt "
-         "(pair layout included, equality up to key order) is kept visible; the pair layout and depth > 111 are covered "
-         "differentially only: the model text is compared with to_json and the statement itself is executed on the "
-         "implementation over all 32 option combinations. Counter-example theorem for the open finding C11-e (nesting > 111). "
+         "control, non-ASCII; ints; float lexemes; true/false/null; unbounded depth and width). "
+         "C11_roundtrip_bounded - for every tree with unique keys, valid float lexemes and depth <= 111 and EVERY option record "
+         "(compress, every indent, pairs_in_one_line on and off - the padded pair layout included -, both values of "
+         "skip_empty_arrays) the exported text is accepted by the reader and the decoded value equals the tree minus the "
+         "containers skip_empty_arrays drops, as Python compares values (pyEq: class tags and dict order ignored); this is the "
+         "full statement C11_roundtrip_stmt plus the hypothesis depth <= 111. C11_roundtrip_ordered_partial gives the decoded value "
+         "exactly: the tree whose pair-layout records are listed in column (first-appearance) order (pairOrder); "
+         "C11_options_agree_all: no option changes the decoded value. C11_roundtrip_colorder_partial / C11_roundtrip_partial: exact equality, dict order included, whenever the records "
+         "already list their keys in column order, in particular with the pair layout off. C11_pair_record: one padded record "
+         "is a JSON text of the column-ordered record for any column widths. C11_roundtrip_stmt itself is kept visible and "
+         "proved FALSE (C11_roundtrip_stmt_false) by the counter-example of the open finding C11-e (C11_depth_cex: 112 nested "
+         "dicts are exported as text that is not JSON), so depth <= 111 is the only and a necessary restriction. "
+         "Constructor side: C11_load_hook - json.loads(text, object_pairs_hook=n0dict) accepts the same texts, fails with the "
+         "same error and builds the same value as json.loads(text) with every object an n0dict and arrays plain lists; "
+         "C11_load / C11_load_list - n0dict(text) / n0list(text) = json.loads(text.strip()) with those class tags for every "
+         "non-empty text whose first non-blank character is { / [ (errors included); C11_load_dispatch - empty text gives the empty "
+         "container, any other first character a TypeError; C11_export_construct_partial - n0dict(x.to_json(..)) / "
+         "n0list(x.to_json(..)) rebuild the tree for every option record (depth <= 111). "
+         "Differential only: nesting deeper than 111 (finding C11-e), XML texts handed to n0dict (other properties), file=/force_dict= "
+         "keywords, xpath navigation of the constructed object (evaluator `constructor`). "
          "The model follows the code with fix patches C11-a, C11-c, C11-d, C11-f applied.",
-    note="json.loads and json.dumps(ensure_ascii=False) are modelled and validated by their own streams; floats are opaque lexemes; "
-         "the constructor side (n0dict(text) == json.loads(text)) is differential only.",
+    note="json.loads, json.dumps(ensure_ascii=False) and the constructors' dispatch are modelled and validated by their own streams "
+         "(json.loads, json.esc, json.ctor); floats are opaque lexemes.",
     design_ref="5/C11",
 )
 
@@ -462,7 +476,54 @@ def impl_expect(c):
     return "ok " + core.enc_val(expected(build(c["t"]), c["skip"]))
 
 
-IMPL_OF = {"json.dump": impl_dump, "json.loads": impl_loads, "json.esc": impl_esc, "json.expect": impl_expect, "json.dumptext": impl_dump_exact}
+def enc_ctor(got, lex):
+    """the constructed value with its class tags; a float is printed as the lexeme found at the same position by
+    json.loads(text, parse_float=Lex) when it denotes that float (floats are opaque lexemes in the model)"""
+    from n0struct import n0dict, n0list  # noqa
+
+    if isinstance(got, float):
+        if isinstance(lex, Lex) and (float(lex) == got or (got != got and float(lex) != float(lex))):
+            return "R" + enc_str(str(lex))
+        return "R?" + repr(got)
+    if isinstance(got, bool) or got is None or isinstance(got, (int, str)):
+        return core.enc_val(got)
+    if isinstance(got, list):
+        c = "n" if isinstance(got, n0list) else "p"
+        ls = lex if isinstance(lex, list) and len(lex) == len(got) else [None] * len(got)
+        return " ".join(["L%s%d" % (c, len(got))] + [enc_ctor(x, y) for x, y in zip(got, ls)])
+    if isinstance(got, dict):
+        c = "n" if isinstance(got, n0dict) else "p"
+        out = ["D%s%d" % (c, len(got))]
+        for k, x in got.items():
+            out += [enc_str(k), enc_ctor(x, lex.get(k) if isinstance(lex, dict) else None)]
+        return " ".join(out)
+    raise ValueError(type(got))
+
+
+def impl_ctor(c):
+    from n0struct import n0dict, n0list  # noqa
+
+    text = c["text"]
+    try:
+        got = (n0dict if c["kind"] == "d" else n0list)(text)
+    except RecursionError:
+        return "err RecursionError"
+    except json.JSONDecodeError:
+        return "err JSONDecodeError"
+    except Exception as e:
+        return "err " + type(e).__name__
+    try:
+        lex = json.loads(text.strip(), parse_float=Lex, parse_constant=Lex)
+    except Exception:
+        lex = None
+    return "ok " + enc_ctor(got, lex)
+
+
+def line_ctor(c):
+    return "json.ctor %s %s" % (c["kind"], enc_str(c["text"]))
+
+
+IMPL_OF = {"json.ctor": impl_ctor, "json.dump": impl_dump, "json.loads": impl_loads, "json.esc": impl_esc, "json.expect": impl_expect, "json.dumptext": impl_dump_exact}
 
 
 def line_dump(c):
@@ -643,6 +704,22 @@ def run(ctx):
     tcases = [c for c in tcases if len(json.loads(c["text"])) > 0]  # the constructors treat an empty argument as "no argument"
     ctx.evaluate("constructor", tcases, check_constructor)
 
+    # ---- B4: the constructor model (empty argument, strip(), first character, json.loads with
+    # object_pairs_hook=n0dict, copy into self) vs n0dict(text) / n0list(text): value, class tags, exception class
+    rk = ctx.rng("ctor-model")
+    pads = ["", "", " ", "\n", "\t ", "\x0c", "\xa0 ", "\u2003", "\x1f\r", "\ufeff", "x", "<", "{", "["]
+    kcases = []
+    for text in INVALID + [c["text"] for c in tcases[:n]]:
+        variants = [text, rk.choice(pads) + text + rk.choice(pads)]
+        if rk.random() < 0.5:
+            variants.append(mutate_text(rk, text))
+        for v in variants:
+            for kind in "dl":
+                kcases.append({"kind": kind, "text": v})
+    ctx.correspond("json.ctor", kcases, line_ctor, impl_ctor)
+    st = ctx.streams["json.ctor"]
+    ctx.extra["ctor_stream"] = {"constructed": st["cases"] - sum(st["errs"].values()), "errors": dict(st["errs"])}
+
     ctx.extra["assumptions"] = [
         "floats are opaque lexemes: Python's repr of a finite float is a JSON number lexeme that json.loads reads back to the same float (generators exclude NaN, inf, -0.0)",
         "trees contain only str keys, None/bool/int/float/str leaves, dict/list (plain or n0) containers; no tuples/sets, no aliasing",
@@ -653,6 +730,7 @@ def run(ctx):
     ]
     ctx.extra["trusted_base"] = [
         "hand-written reader model of json.loads (Model/Json.lean, parseValue/scanString/nscan) validated on valid, mutated and hand-made invalid texts",
+        "hand-written model of the str branch of n0dict.__init__ / n0list.__init__ (n0dictOfText, n0listOfText, parseValueH = the scanner with object_pairs_hook) validated by stream json.ctor (values, class tags, exception classes; blanks that strip() removes and JSON rejects)",
         "the evaluator's reference semantics prune/plain (tied to the Lean prune/erase by stream json.expect)",
     ]
-    ctx.extra["differential_only"] = ["pair layout (pairs_in_one_line with indent > 0)", "nesting deeper than 111 (finding C11-e)", "constructors n0dict(text)/n0list(text)"]
+    ctx.extra["differential_only"] = ["nesting deeper than 111 (finding C11-e)", "n0dict(xml text), file= / force_dict= keywords of the constructors", "xpath navigation of the constructed object"]
